@@ -133,7 +133,7 @@ def from_buffer_commit(ctx, rid):
     fc = ctx.A.fn("wtransport_proto::bytes::BufferReaderChild::commit")
     ps = nonpanic(walk(fc))
     evs = [e for p in ps for e in event_strs(p)]
-    okk = any(re.match(r"^BufferReader::skip\(self\.parent,BufferReader::offset\(&self\.reader\)\)$", e) for e in evs)
+    okk = any(re.match(r"^BufferReader::skip\(&?\*?self\.parent,BufferReader::offset\(&self\.reader\)\)$", e) for e in evs)
     ctx.check(rid, "BufferReaderChild::commit", okk,
               "BufferReaderChild::commit no longer does `parent.skip(child.offset())`: %s" % evs, where(fc))
     ctx.floor(rid, "commit-or-drop wrappers", n, 6)
@@ -774,3 +774,108 @@ def preamble_writers(ctx, rid):
         sg = sorted(path_sig(p) for p in nonpanic(walk(f)))
         want = sorted([(("*self.kind is WebTransport",), "return <impl bool>::then(1,closure:%s::{closure#0})" % ty), (("*self.kind isnot WebTransport",), "return <impl bool>::then(0,closure:%s::{closure#0})" % ty)])
         ctx.check(rid, "%s::session_id" % ty, sg == want, "%s::session_id is not `matches!(kind, WebTransport).then(..)`: %s" % (ty, sg), where(f))
+
+
+def _reader_seq(p):
+    """wire reads of a path, as (primitive, remap?) in order"""
+    out = []
+    for e in p.events:
+        if e[0] == "call" and re.search(r"(BytesReader|BytesReaderAsync)(>)?::(get_varint|get_bytes|get_buffer)$", e[1]):
+            out.append(e[1].split("::")[-1])
+    return out
+
+
+def reader_sequences(ctx, rid):
+    """Frame::read == Frame::read_async and StreamHeader::read == read_async as I/O sequences with the same
+    branch atoms, the same cap constant/comparator and the same error constructor at the same position"""
+    A = ctx.A
+    cap = const_int(A, "wtransport_proto::frame::Frame::MAX_PARSE_PAYLOAD_ALLOWED")
+
+    def norm(fn, is_async):
+        rows = set()
+        with depth_limit(6):
+            for p in nonpanic(walk(fn)):
+                atoms, leaf = path_sig(p)
+                seq = tuple(_reader_seq(p))
+                kind = None
+                for a in atoms:
+                    m = re.search(r"(FrameKind|StreamKind)::parse\(.*\)\)? is (WebTransport)$", a) or re.search(r"some\((FrameKind|StreamKind)::parse\(.*\)\) (is|isnot) (WebTransport)$", a)
+                    if m:
+                        kind = "WT" if " is WebTransport" in a else "other"
+                capa = [re.sub(r".* (<=|>) ", r"\1 ", a) for a in atoms if "MAX_PARSE_PAYLOAD_ALLOWED" in a]
+                if "UnknownFrame" in leaf or "UnknownStream" in leaf:
+                    out = "Err(Unknown)"
+                elif "InvalidSessionId" in leaf or re.search(r"closure#[01]\},err\(SessionId::try_from_varint", leaf):
+                    out = "Err(InvalidSessionId)"
+                elif "PayloadTooBig" in leaf:
+                    out = "Err(PayloadTooBig)"
+                elif re.search(r"^return Result::Ok\(Option::None\)$", leaf):
+                    out = "NeedMore"
+                elif leaf.startswith("return Result::Ok("):
+                    out = "Ok"
+                elif is_async and re.search(r"Err\(from\((apply\(closure:.*,)?err\(await\(", leaf):
+                    out = "NeedMore"   # EOF / IO error of the source = the async form of `incomplete`
+                else:
+                    out = "?" + leaf[:60]
+                rows.add((kind, seq, tuple(capa), out))
+        return rows
+    for ty, mod in (("Frame", "frame"), ("StreamHeader", "stream_header")):
+        s = A.fn("wtransport_proto::%s::%s::read" % (mod, ty))
+        a = A.fn("wtransport_proto::%s::%s::read_async::{closure#0}" % (mod, ty))
+        rs = {(k, tuple(x.replace("get_bytes", "get_payload") for x in seq), c, o) for k, seq, c, o in norm(s, False)}
+        ra = {(k, tuple(x.replace("get_buffer", "get_payload") for x in seq), c, o) for k, seq, c, o in norm(a, True)}
+        ctx.check(rid, "%s::read == %s::read_async" % (ty, ty), rs == ra,
+                  "%s::read and read_async disagree as I/O sequences: only-sync %s ; only-async %s" % (ty, sorted(str(x) for x in rs - ra), sorted(str(x) for x in ra - rs)), where(a))
+        ctx.sample({"rule": rid, "decoder": ty, "rows": sorted(str(x) for x in rs)})
+        unk = [r for r in rs | ra if r[3].startswith("?")]
+        ctx.check(rid, "%s reader rows classified" % ty, not unk, "cannot decide: unclassified reader leaf %s" % unk, where(s))
+        # WebTransport path consumes exactly [varint, varint]; nothing after
+        wt = [r for r in rs if r[0] == "WT" and r[3] == "Ok"]
+        ctx.check(rid, "%s WT path = [varint, varint]" % ty, bool(wt) and all(r[1] == ("get_varint", "get_varint") for r in wt), "%s::read WebTransport path does not consume exactly [varint, varint]: %s" % (ty, wt), where(s))
+    ctx.check(rid, "payload cap constant", cap == SPEC["max_parse_payload"], "MAX_PARSE_PAYLOAD_ALLOWED is %d" % cap)
+
+
+def poll_loops(ctx, rid):
+    """GetVarint / GetBuffer / PutVarint / PutBuffer: the slice handed to poll_read/poll_write is exactly the
+    unread/unwritten part of the field; offset advances by the returned count; completion iff offset reached the field length"""
+    A = ctx.A
+    P = "wtransport_proto::bytes::r#async::"
+    spec = {
+        "GetVarint<R>": ("AsyncRead::poll_read", {r"Range\(0,1\)", r"Range\(\*self\.offset,\*self\.varint_size\)"}, r"\*self\.varint_size"),
+        "GetBuffer<R>": ("AsyncRead::poll_read", {r"RangeFrom\(\*self\.offset\)"}, r"<impl \[T\]>::len\(&\*\*self\.buffer\)"),
+        "PutVarint<W>": ("AsyncWrite::poll_write", {r"Range\(\*self\.offset,\*self\.varint_size\)"}, r"\*self\.varint_size"),
+        "PutBuffer<W>": ("AsyncWrite::poll_write", {r"RangeFrom\(\*self\.offset\)"}, r"<impl \[T\]>::len\(&\*\*self\.buffer\)"),
+    }
+    for ty, (prim, ranges, limit) in spec.items():
+        f = A.fn("<%s%s as std::future::Future>::poll" % (P, ty))
+        ps = walk(f)
+        seen = set()
+        for p in ps:
+            for e in event_strs(p):
+                m = re.match(r"^%s\(&\*\*self\.(reader|writer),&\*cx,&\*<impl Index(Mut)?<I> for \[T(; N)?\]>::index(_mut)?\(&\*+self\.buffer,(.*)\)\)$" % re.escape(prim), e)
+                if m:
+                    seen.add(m.group(5))
+                elif e.startswith(prim + "("):
+                    seen.add("?" + e[:120])
+        okr = bool(seen) and all(any(re.fullmatch(r, s) for r in ranges) for s in seen) and len(seen) == len(ranges)
+        ctx.check(rid, "%s slice passed to %s" % (ty, prim.split("::")[-1]), okr,
+                  "%s::poll hands %s to %s; expected exactly the remaining part of the field %s (anything wider reads/writes bytes that do not belong to the field)"
+                  % (ty, sorted(seen), prim, sorted(ranges)), where(f))
+        # advance by the returned count
+        adv = set()
+        for p in ps:
+            if p.leaf[0] != "loop" and not (ty == "GetVarint<R>" and p.leaf[0] == "return"):
+                continue
+            for e in event_strs(p):
+                m = re.match(r"^store \*self\.offset := (.*)$", e)
+                if m:
+                    adv.add(re.sub(r"%s\(.*?\)\) as Ready\)\.0\)" % re.escape(prim), "N)", m.group(1)))
+        want = {"AddWithOverflow(*self.offset,ok((N)).0"} | ({"1"} if ty == "GetVarint<R>" else set())
+        ctx.check(rid, "%s offset advance" % ty, adv == want, "%s::poll advances offset by %s, expected `offset += returned count`%s" % (ty, sorted(adv), " and `offset = 1` after the first byte" if ty == "GetVarint<R>" else ""), where(f))
+        # completion
+        done = [path_sig(p) for p in nonpanic(ps) if re.match(r"^return Poll::Ready\(Result::Ok\(", path_sig(p)[1])]
+        okd = bool(done) and all(any(re.fullmatch(r"\*self\.offset >= %s" % limit, a) for a in at) for at, _ in done)
+        ctx.check(rid, "%s completes iff offset >= field length" % ty, okd, "%s::poll completes on a path without `offset >= %s`: %s" % (ty, limit, [a[-2:] for a, _ in done]), where(f))
+    f = A.fn("wtransport_proto::bytes::r#async::PutVarint::new")
+    sg = [path_sig(p)[1] for p in nonpanic(walk(f))]
+    ctx.check(rid, "PutVarint::new size from the encoder", len(sg) == 1 and re.search(r",0,BufferWriter::offset\(&BufferWriter::new\(", sg[0]) is not None, "PutVarint::new does not take varint_size from the number of bytes octets wrote: %s" % sg, where(f))
